@@ -320,7 +320,8 @@ class ModuleFinder:
             if rel_subpath.parent in skip:
                 logger.debug("Skip %s, another module took precedence", subpath)
                 continue
-            py_file = rel_subpath.suffix == ".py"
+            # A stubs file is named like its module: `name.pyi` only, `name.tag.pyi` is not the stubs of `name`.
+            py_file = rel_subpath.suffix in {".py", ".pyi"}
             stem = rel_subpath.stem
             if not py_file:
                 # `.py[cod]` and `.so` files look like `name.cpython-38-x86_64-linux-gnu.ext`.
